@@ -67,7 +67,9 @@ func harnessC04(n int) {
 	bf := uint(verifBound("BF"))
 	st := newVStore("s1")
 	cfg := symConfig(st, mkCache(verifBoundOr("CACHE", 0)))
-	cur, err := NewRoot(&CreateRemoteOptions{BranchFactor: bf}).LoadMast(vctx, cfg)
+	fm := verifBoundOr("FMT", 0)
+	cfg.UnmarshalerUsesRegisteredTypes = fm == 2
+	cur, err := NewRoot(&CreateRemoteOptions{BranchFactor: bf, NodeFormat: fmtOf(fm)}).LoadMast(vctx, cfg)
 	verifAssert("C01.new.err", err == nil)
 	md := &symModel{}
 	if n > 0 {
@@ -80,6 +82,12 @@ func harnessC04(n int) {
 	r, err := cur.MakeRoot(vctx)
 	verifAssert("C01.makeroot.err", err == nil)
 	if err != nil {
+		return
+	}
+	if fm != 0 {
+		// v1marshaler: the independent node reader knows the binary format only; what is compared is the
+		// root of this history with the root of the ascending re-insertion of the same contents
+		c04Reference(cur, r, bf, fm)
 		return
 	}
 	rep := checkShape(st, r)
@@ -96,11 +104,17 @@ func harnessC04(n int) {
 	rule := ruleHeight(uint64(bf), r.Size, rep.maxLayer)
 	verifAssert("C04.height-rule", uint64(r.Height) == rule)
 
-	// reference history: ascending inserts of the same content into a fresh tree, in a fresh store
+	c04Reference(cur, r, bf, fm)
+}
+
+// c04Reference: ascending inserts of the same contents into a fresh tree in a fresh store give the same root.
+func c04Reference(cur *Mast, r *Root, bf uint, fm int) {
 	ks, vs, err := iterAll(cur)
 	verifAssert("C01.iter.err", err == nil)
 	st2 := newVStore("s2")
-	ref, err := NewRoot(&CreateRemoteOptions{BranchFactor: bf}).LoadMast(vctx, symConfig(st2, nil))
+	cfg2 := symConfig(st2, nil)
+	cfg2.UnmarshalerUsesRegisteredTypes = fm == 2
+	ref, err := NewRoot(&CreateRemoteOptions{BranchFactor: bf, NodeFormat: fmtOf(fm)}).LoadMast(vctx, cfg2)
 	verifAssert("C01.ref.new.err", err == nil)
 	for i := range ks {
 		err := ref.Insert(vctx, symKey{ks[i]}, vs[i])
@@ -120,4 +134,5 @@ func harnessC04(n int) {
 		sameLink = verifStrEq(*r.Link, *r2.Link)
 	}
 	verifAssert("C04.same-link", sameLink)
+	verifAssert("C08.equal-contents-equal-root-name", sameLink)
 }
